@@ -5,6 +5,7 @@ Requests: `<what> <dim> n0 .. n(dim-1)`.
 import DarsiaModel.Basic
 import DarsiaModel.Grid
 import DarsiaGen.GridTables
+import DarsiaModel.GridFromImage
 open Darsia
 
 def sep (xs : List String) : String := " | ".intercalate xs
@@ -36,6 +37,14 @@ def handle (what : String) (shape : List Nat) : Option String :=
   | _ => none
 
 def dispatch : List String → Option String
+  | "gengrid" :: rest => do
+    -- generate_grid on the image geometry: voxel shape (matrix order), dimensions (matrix order)
+    let ((shape, dims), _) ← (do let s ← P.list P.nat; let d ← P.list P.rat; pure (s, d)).run rest
+    let dim ← (match shape.length with | 1 => some Dim.d1 | 2 => some Dim.d2 | 3 => some Dim.d3 | _ => none)
+    let cs : CS := { dim := dim, shape := shape, dims := dims, origin := [] }
+    let g := generateGrid cs
+    pure (sep [showNats g.1, showRats g.2, showRat (vol g.2 * (numCells g.1 : Nat)), showRat (prodR dims),
+      (match gridGuard g.1 g.2 with | .ok _ => "ok" | .error e => e.show)])
   | "guard" :: rest => do
     -- which constructor calls are accepted: shape, per-axis voxel sizes
     let ((shape, h), _) ← (do let s ← P.list P.nat; let h ← P.list P.rat; pure (s, h)).run rest
